@@ -9,9 +9,9 @@ ALLV = '{"h264", "h265", "av1", "vp9"}'
 
 
 def _mc(consts, rel='none', facets=None, module='MCMuxide', invariants=('FileOK', 'TypeOK'),
-        properties=('StutterOnReject', 'FinishOnce'), workers=6):
+        properties=('StutterOnReject', 'FinishOnce'), workers=6, spec='Spec'):
     return dict(consts=consts, rel=rel, facets=facets, module=module, invariants=invariants,
-                properties=properties, workers=workers)
+                properties=properties, workers=workers, spec=spec)
 
 
 def _c(scen, vcs, acs, maxv, maxa, maxcalls, thorough=False, probe=0):
@@ -72,6 +72,11 @@ def corpus_defs(tier):
         fr(5 if q else 8, 'StepsC', 'CtsA', start=3000),
     ] + ([] if q else [fr(6, 'StepsA', 'CtsB', start=7)]),
         rand=[dict(gen='frag', n=200 if q else 4000, rel='filtered', facets=None)])
+    # --- sink: every write-call index x fault kind (and every byte offset as a short-write cut) ---
+    d['sink'] = dict(trace='TraceMuxide', inst_div=100000, mc=[
+        _mc({'FLen': 6, 'MaxBuf': 4, 'MaxIntr': 2, 'SDev': '{}'}, module='MuxideSink', spec='SSpec',
+            invariants=('PrefixAlways', 'ErrIffFailed', 'ShortWritesHarmless'), properties=('SilentAfterFailure',)),
+    ], rand=[dict(gen='sink_calls', n=0, rel=None, facets=F_ST)] + ([dict(gen='sink_bytes', n=0, rel=None, facets=F_ST)]))
     return d
 
 
@@ -102,7 +107,7 @@ def run(ctx, name, cdir):
     res = {'name': name, 'mc_runs': [], 'mc_states': 0, 'mc_generated': 0, 'behaviours': 0, 'random_instances': 0,
            'errors': []}
     for k, m in enumerate(d.get('mc', [])):
-        cfg_text = core.mc_cfg(m['consts'], m['invariants'], m['properties'])
+        cfg_text = core.mc_cfg(m['consts'], m['invariants'], m['properties'], spec=m.get('spec', 'Spec'))
         rc, out, wall = core.run_tlc(ctx, m['module'], cfg_text, os.path.join(cdir, 'mc_%d' % k), workers=m['workers'])
         pr = core.parse_mc_output(out)
         res['mc_runs'].append({'consts': m['consts'], 'states': pr['states'], 'generated': pr['generated'],
@@ -128,30 +133,33 @@ def run(ctx, name, cdir):
     for g in d.get('rand', []):
         gl = gen.generate(g['gen'], g['n'], ctx.seed, ctx.tier)
         for o in gl:
-            o['rel'] = g.get('rel', 'none')
+            if g.get('rel') is not None:
+                o['rel'] = g.get('rel', 'none')
             if g.get('facets') is not None:
                 o['cfg']['facets'] = g['facets']
         res['random_instances'] += len(gl)
         lines += gl
     if res['errors']:
         return res
-    r2 = run_lines(ctx, name, lines, cdir, trace=d['trace'], harness_cmd=d.get('harness', 'replay'))
+    r2 = run_lines(ctx, name, lines, cdir, trace=d['trace'], harness_cmd=d.get('harness', 'replay'), inst_div=d.get('inst_div', 8))
     res.update(r2)
     return res
 
 
-def run_lines(ctx, name, lines, cdir, trace=None, harness_cmd=None):
+def run_lines(ctx, name, lines, cdir, trace=None, harness_cmd=None, inst_div=None):
     defs = corpus_defs(ctx.tier)
     if trace is None:
         trace = defs[name]['trace']
         harness_cmd = defs[name].get('harness', 'replay')
+    if inst_div is None:
+        inst_div = defs[name].get('inst_div', 8)
     res = {'errors': []}
     inp = os.path.join(cdir, 'input.ndjson')
     with open(inp, 'w') as f:
         for o in lines:
             f.write(json.dumps(o) + '\n')
     outdir = os.path.join(cdir, 'trace')
-    shards = 1 if len(lines) < 50 else 16
+    shards = 1 if len(lines) < 4 else 16
     hr = core.run_harness(ctx, [harness_cmd, '--in', inp, '--out', outdir, '--shards', str(shards)])
     shard_files = sorted(glob.glob(os.path.join(outdir, 'shard_*.ndjson')))
     sigs, consumed, errors = core.run_trace_shards(ctx, trace, shard_files, os.path.join(cdir, 'tv'))
@@ -169,7 +177,7 @@ def run_lines(ctx, name, lines, cdir, trace=None, harness_cmd=None):
         seen[k] = seen.get(k, 0) + 1
         e = {'sig': s['sig'], 'inst': s['inst'], 'ev': s['ev'], 'module': trace}
         if seen[k] <= 2:
-            li = s['inst'] // 8
+            li = s['inst'] // inst_div
             if 0 <= li < len(lines):
                 e['line'] = lines[li]
         out_sigs.append(e)
